@@ -15,6 +15,7 @@ import (
 	"verif/harness/core"
 	"verif/harness/gen"
 	"verif/harness/lib"
+	"verif/harness/wire"
 )
 
 // C19 - a token can be shared by concurrent goroutines.
@@ -23,7 +24,7 @@ import (
 // + a constant-state sequential model: every concurrent result must equal the result of the
 // same call made alone.
 
-var c19OpNames = []string{"AuthorizerFor", "Authorize", "Query", "String", "Code", "GetBlockID", "CreateBlock+Add+Build", "Append", "Seal", "Serialize", "RevocationIds", "Parse", "Checks+Context"}
+var c19OpNames = []string{"AuthorizerFor", "Authorize", "Query", "String", "Code", "GetBlockID", "CreateBlock+Add+Build", "Append", "Seal", "Serialize", "RevocationIds", "Parse", "Checks+Context", "AuthorizerFor(tampered sealed copy)"}
 
 type c19Shared struct {
 	tok     *lib.Token
@@ -36,6 +37,7 @@ type c19Shared struct {
 	psr     parser.Parser
 	texts   []string
 	lookup  []ast.Pred
+	badSeal []byte // a sealed copy of the token whose final signature has one bit flipped
 }
 
 // c19Op runs one operation and returns a canonical text of its result.
@@ -76,6 +78,14 @@ func c19Op(sh *c19Shared, op int, label string) string {
 		for _, f := range sh.lookup {
 			id, err := t.B.GetBlockID(f.LibFact())
 			out += fmt.Sprint(id, err, ";")
+		}
+		// misses on a predicate the token knows, with strings nobody has seen (flat and in a set)
+		if n := len(sh.lookup); n > 2 {
+			known := sh.lookup[n-1].Name
+			for _, f := range []ast.Pred{ast.P(known, ast.Str("unseen-"+label)), ast.P(known, ast.SetOf(ast.Str("unseen-in-set-"+label)))} {
+				id, err := t.B.GetBlockID(f.LibFact())
+				out += fmt.Sprint(id, err, ";")
+			}
 		}
 		return out
 	case 6: // CreateBlock + Add (new symbols) + Build, observed through the block's printed form after append
@@ -133,6 +143,16 @@ func c19Op(sh *c19Shared, op int, label string) string {
 			out += x.Key() + ";"
 		}
 		return out
+	case 13: // a tampered sealed copy is refused, every time, while the genuine token is in use
+		if sh.badSeal == nil {
+			return "n/a"
+		}
+		b, err := biscuit.Unmarshal(sh.badSeal)
+		if err != nil {
+			return "unmarshal: " + err.Error()
+		}
+		_, err = b.AuthorizerFor(biscuit.WithSingularRootPublicKey(t.Pub), lib.BigLimits())
+		return fmt.Sprint(err)
 	default:
 		return fmt.Sprint(len(t.B.Checks()), t.B.GetContext(), t.B.BlockCount(), idText(t.B.RootKeyID()))
 	}
@@ -185,6 +205,19 @@ func c19Run(c *core.C) {
 	if len(tok.Blocks[0].Facts) > 0 {
 		sh.lookup = append(sh.lookup, tok.Blocks[0].Facts[0])
 	}
+	// the tampered sealed copy (final signature with one bit flipped)
+	sealedTok := tok
+	if !tok.Sealed {
+		sealedTok, _ = tok.Seal(lib.NewDetRand(c.Seed, "c19-bad-seal"))
+	}
+	if sealedTok != nil {
+		if ser, err := sealedTok.B.Serialize(); err == nil {
+			if env, err := wire.Decode(ser); err == nil && len(env.Proof) > 0 {
+				env.Proof[r.Intn(len(env.Proof))] ^= 1 << uint(r.Intn(8))
+				sh.badSeal = env.Encode()
+			}
+		}
+	}
 	nG := []int{2, 3, 4, 8, 16}[r.Intn(5)]
 	procs := []int{2, 4, 16}[r.Intn(3)]
 	old := runtime.GOMAXPROCS(procs)
@@ -195,6 +228,10 @@ func c19Run(c *core.C) {
 		for k := 0; k < opsPer; k++ {
 			plans[g] = append(plans[g], r.Intn(len(c19OpNames)))
 		}
+	}
+	if c.Idx%2 == 1 {
+		// one refused verification before anything else: state it leaves behind is met by everybody
+		lib.Try(func() { _ = c19Op(sh, 13, "warm") })
 	}
 	// sequential model: the result of every planned call made alone. In even cases it is computed
 	// BEFORE any concurrency, in odd cases AFTER it (a warm-up would hide races on state that is
@@ -292,8 +329,9 @@ func c19Run(c *core.C) {
 
 func init() {
 	core.Register(&core.Prop{
-		ID:    "C19",
-		Level: "exploration",
+		ID:        "C19",
+		MinCounts: map[string]int{"baseline_before_concurrency": 20, "baseline_after_concurrency": 20},
+		Level:     "exploration",
 		Rule: "every case runs in the -race build: one shared token (variants in rotation: built, re-loaded from bytes, sealed, sealed and re-loaded; 1-4 blocks) x 2-16 goroutines released by a start barrier x GOMAXPROCS in {2,4,16} x 12 seeded operations per goroutine over {AuthorizerFor, Authorize, Query, String, Code, GetBlockID with unknown symbols, CreateBlock+Add+Build, Append, Seal, Serialize, RevocationIds, Checks/GetContext, parsing with ONE shared parser instance}; parsed fact / rule / check / policy values are shared by all goroutines. Every planned call is first made alone (constant-state sequential model) and its concurrent result must be identical. Race reports are read from the race log, de-duplicated by the unordered pair of innermost library frames. " +
 			"Non-trivial/distinct = distinct pairs of operation types whose executions really overlapped in time (from per-call start/end stamps).",
 		Assumptions: []string{"the race detector only sees accesses the workload executes in the same run; reports vary from run to run, hence the repetition"},
